@@ -11,10 +11,12 @@ Pieces (see coq/Properties/C07.v for what is proved):
    other than ':' in the input must be gone from what reaches the sink; output must not depend on the
    splitting into Write calls; every block the sink receives ends with a newline.
  * long lines (3 000 - 20 000 bytes, padding words and many addresses, delivered over several Writes cut inside
-   addresses and at every power of two 512..16384 +-1 of pending bytes, with and without the final newline) are run
-   on the IMPLEMENTATION ONLY (op `lwrite`, compact replayable encoding; the extracted matcher needs seconds per
-   20 KB line): no surviving address, complete lines only, same output for every splitting of the same stream.
-   Lines of 600 - 2 000 bytes cut the same way are also compared with the model (kinds write-mid-*).
+   addresses and at every power of two 512..16384 +-1 of pending bytes, with and without the final newline) use the
+   driver op `lwrite` (compact replayable encoding). The extracted matcher needs seconds per 20 KB line, so the model
+   is run ONCE per stream (the stream in a single Write; by C07_write_split_invariant its answer is the same for
+   every splitting); the ~25 splittings of each stream are judged on the implementation alone: no surviving address,
+   complete lines only, same output as every other splitting of the stream.
+   Lines of 600 - 2 000 bytes cut the same way are compared with the model case by case (kinds write-mid-*).
 """
 import ipaddress
 import os
@@ -862,10 +864,10 @@ def first_difference(ra, rb):
 
 
 def long_lines(ctx, exe):
-    """Lines of 3 000 - 20 000 bytes, IMPLEMENTATION ONLY (no model comparison: the extracted matcher needs
-    seconds per 20 KB line): prop on every case + same answer for every splitting of one stream."""
+    """Lines of 3 000 - 20 000 bytes: prop on every case + same answer for every splitting of one stream, on the
+    implementation alone; the model (seconds per 20 KB line) is compared once per stream, on the single-Write case."""
     streams = gen_long(ctx)
-    ncases = 0
+    ncases = nmodel = ndis = 0
     for lo in range(0, len(streams), 8):                      # bounded memory: a few streams per driver run
         batch = streams[lo:lo + 8]
         lines = [c for cases, _ in batch for c in cases]
@@ -884,11 +886,22 @@ def long_lines(ctx, exe):
             if bad:
                 ctx.violation(key_of(l, r, None), bad, dict(label="long-lines", case=l, impl=r[:4000]))
         split_dependence(ctx, {g: cases for g, (cases, _) in enumerate(batch)}, res, None, "long-lines-split")
-    ctx.extra["long_lines"] = dict(streams=len(streams), cases=ncases,
-                                   how="implementation only (op lwrite): no bounded address of the stream's complete lines in the "
-                                       "sink, every sink block ends with a newline, identical sink content for every splitting of "
-                                       "the same stream; not compared with the model (lines of 600-2000 bytes cut the same way are: "
-                                       "kinds write-mid-*)")
+        # the model on the stream delivered in one Write (cases[0] is the splitting `whole`)
+        whole = [cases[0] for cases, _ in batch]
+        model = vlib.run_model(["%s write %s" % (AREA, hx(lwrite_stream(c.split(" ")[2]))) for c in whole])
+        for c, m in zip(whole, model):
+            nmodel += 1
+            if m != res[c] and not prop(c, res[c], m):
+                ndis += 1
+                if ndis <= 3:
+                    ctx.not_shown("correspondence long-lines: model and implementation disagree on the single-Write delivery of `%s`: "
+                                  "%s; the property predicate found no failure on it" % (c[:400], " vs ".join(first_difference(m, res[c]))))
+    ctx.extra["long_lines"] = dict(streams=len(streams), cases=ncases, model_compared_single_write=nmodel,
+                                   how="every splitting on the implementation alone (op lwrite): no bounded address of the stream's "
+                                       "complete lines in the sink, every sink block ends with a newline, identical sink content for "
+                                       "every splitting of the same stream; the model is compared once per stream (stream in one Write; "
+                                       "split invariance of the model is theorem C07_write_split_invariant); lines of 600-2000 bytes cut "
+                                       "the same way are compared with the model case by case (kinds write-mid-*)")
 
 
 def run(ctx):
@@ -896,8 +909,9 @@ def run(ctx):
                     "Go's regexp engine: modelled by the leftmost-first backtracking matcher of coq/Model/Regex.v, tied by correspondence only",
                     "python's ipaddress module decides what counts as an address in the failing-input search"]
     ctx.assumptions += ["model = coq/Model/{Regex,RegexIncl,Scrub}.v over the GENERATED coq/Gen/SafelogPatterns.v",
-                        "lines of 3000-20000 bytes (kinds lwrite-implonly-*) are checked on the implementation only: no surviving address, complete "
-                        "lines only, output independent of the write boundaries; the model is compared on lines up to 2000 bytes",
+                        "lines of 3000-20000 bytes (kinds lwrite-implonly-*): every splitting is judged on the implementation only (no surviving "
+                        "address, complete lines only, output independent of the write boundaries); the model is compared once per stream "
+                        "(single Write) and case by case on lines up to 2000 bytes",
                         "bytes >= 0x80 are single symbols of the class [^\\w:] (Go decodes runes; equal output because the delimiters are not consumed)"]
     changed = regenerate_patterns(ctx)
     ctx.extra["patterns_regenerated"] = bool(changed)
